@@ -35,6 +35,7 @@ func sceneFor(name string) SceneOpts {
 		o.BurnEpoch = "five_minutes"
 		o.LevPerBlock = 2
 		o.EdenPerYear = "10000000000000"
+		o.Registry = true
 	case "rewards":
 		o.EdenPerYear = "10000000000000"
 	}
